@@ -40,7 +40,8 @@ namespace {
 
 struct Options {
   std::string out;
-  std::vector<std::string> roots;  // path substrings whose functions get a full body
+  std::vector<std::string> roots;  // path substrings whose functions get a full body (the analysed library)
+  std::vector<std::string> drvs;   // path substrings of driver / fixture headers (full body, flagged "main")
   bool mainIsRoot = true;
 };
 
@@ -90,6 +91,8 @@ class Exporter {
     if (Opts.mainIsRoot && SM.isInMainFile(e)) return true;
     std::string f = SM.getFilename(e).str();
     for (auto &r : Opts.roots)
+      if (f.find(r) != std::string::npos) return true;
+    for (auto &r : Opts.drvs)
       if (f.find(r) != std::string::npos) return true;
     return false;
   }
@@ -1224,6 +1227,7 @@ class Action : public PluginASTAction {
     for (const std::string &a : args) {
       if (a.rfind("out=", 0) == 0) Opts.out = a.substr(4);
       else if (a.rfind("root=", 0) == 0) Opts.roots.push_back(a.substr(5));
+      else if (a.rfind("drv=", 0) == 0) Opts.drvs.push_back(a.substr(4));
       else if (a == "nomain") Opts.mainIsRoot = false;
     }
     if (Opts.out.empty()) Opts.out = "amcsa.json";
